@@ -10,7 +10,8 @@
  *   P <id> <obj> <init> <mode> <bound> <nthreads> { <nops> { <op> <arg> <exp> } } [S <choices>]
  *     obj,op: indices into the generated tables vp_objs[] / vp_ops[];  mode 0: object located by the table entry,
  *     mode 1: thread 0 is a "parent" body that owns the object in its automatic storage;  bound: max preemptions
- *     (-1 = unbounded);  S: replay exactly this schedule (digits = thread ids) and print the event trace.
+ *     (-1 = unbounded);  S: replay exactly this schedule (digits = thread ids) and print the event trace;
+ *     V <choices>: replay it twice, demand identical event traces, print only the history line.
  * stdout: PROG/H/END records (see emit_results).   exit 3 = harness error (divergent replay, impossible state).
  */
 #define _GNU_SOURCE
@@ -363,8 +364,11 @@ static void explore(void) {
     schedules++;
     by_pre[npre > MAXPRE ? MAXPRE : npre]++;
     if (aborted) {
+      /* a run of HORIZON scheduling points: some retry loop never terminates.  That is a verdict for the whole
+         program; exploring the (astronomically many) other infinite schedules adds nothing. */
       livelocks++;
       record_history("LIVELOCK", npre, len);
+      break;
     } else {
       history_text(text, sizeof text);
       record_history(text, npre, len);
@@ -415,18 +419,26 @@ static void explore(void) {
   printf("END %s\n", prog.id);
 }
 
-static void replay_schedule(const char *s) {
+static void replay_schedule(const char *s, int verify) {
   char text[4096];
   int len = strlen(s);
   if (len > HORIZON) die("schedule too long");
   replay_len = 0; strict_replay = 0;
   follow = s; follow_len = len;
   run_once();
-  follow = 0;
   if (depth != len) die("divergent replay: execution ended before the schedule did");
+  if (verify) {
+    /* determinism proof for one schedule: execute it a second time, the event traces must be identical */
+    int n1 = ntrace, ab = aborted;
+    memcpy(trace2, trace, n1 * sizeof(struct ev));
+    run_once();
+    if (depth != len || aborted != ab || ntrace != n1 || memcmp(trace, trace2, n1 * sizeof(struct ev)))
+      die("nondeterminism: replaying a schedule produced a different event trace");
+  }
+  follow = 0;
   history_text(text, sizeof text);
   printf("PROG %s replay\n", prog.id);
-  print_trace();
+  if (!verify) print_trace();
   printf("H 1 %d %016lx %s | %s\n", pre[depth], (unsigned long)trace_hash(), s, aborted ? "LIVELOCK" : text);
   printf("END %s\n", prog.id);
 }
@@ -455,9 +467,10 @@ int main(int argc, char **argv) {
       }
     }
     tok = strtok_r(0, " \n", &save);
-    if (tok && !strcmp(tok, "S")) {
+    if (tok && (!strcmp(tok, "S") || !strcmp(tok, "V"))) {
+      int verify = tok[0] == 'V';
       tok = strtok_r(0, " \n", &save);
-      replay_schedule(tok ? tok : "");
+      replay_schedule(tok ? tok : "", verify);
     } else
       explore();
   }
